@@ -1,0 +1,529 @@
+//go:build verif
+
+// Contracts for the deductive verifier in /verif (govc). This file contains comments
+// only; it is compiled only with the build tag "verif" and then adds nothing but the
+// package clause.
+
+package priority
+
+// Ghost state (changed only by the channel events and the divider-call hook below):
+//   gInfl        items handed out on the output and not yet released (Out events - feedback events)
+//   gInflP[p]    the same per priority
+//   gDivErr      a division returned a non-zero added total different from the dividend
+//   gPset        the configured priorities (AddInput / RemoveInput requests received so far)
+//   gH           Opts.HandlersQuantity
+//   gClosedIn    priorities whose current input channel was observed closed
+//   gStop        a stop case (Stop() or context cancellation) was taken
+//   gGraceful    the graceful-stop signal was observed
+//   gCompleted   breaker.Complete() was called (Stop() / GracefulStop() may have returned)
+
+//@ ghost var gInfl int
+//@ ghost var gInflP map[int]int
+//@ ghost var gDivErr bool
+//@ ghost var gPset set
+//@ ghost var gH int
+//@ ghost var gClosedIn set
+//@ ghost var gStop bool
+//@ ghost var gGraceful bool
+//@ ghost var gCompleted bool
+
+// A release is sent once per delivered item and only for delivered items (DESIGN.md §6.5).
+//@ event recv dsc.opts.Feedback (p)
+//@   assume-env [*] release-only-for-delivered-items: gInflP[p] > 0
+//@   effect gInfl := gInfl - 1
+//@   effect gInflP := store(gInflP, p, gInflP[p] - 1)
+
+// C01 / C15 / C16 at the moment an item is handed out.
+//@ event send dsc.opts.Output (v)
+//@   requires [C01 C15] capacity-never-exceeded: gInfl < dsc.opts.HandlersQuantity
+//@   requires [C15] no-delivery-after-a-divider-fault: !gDivErr
+//@   requires [C16] nothing-after-stop-returned: !gCompleted
+//@   effect gInfl := gInfl + 1
+//@   effect gInflP := store(gInflP, v.Priority, gInflP[v.Priority] + 1)
+
+//@ event recv dsc.inputs[$p].Channel (item, opened)
+//@   effect gClosedIn := ite(opened, gClosedIn, store(gClosedIn, p, true))
+
+//@ event recv dsc.interrupter.C ()
+
+//@ event recv dsc.breaker.IsBreaked() ()
+//@   effect gStop := true
+//@ event recv dsc.opts.Ctx.Done() ()
+//@   effect gStop := true
+//@ event recv dsc.graceful.IsBreaked() ()
+//@   effect gGraceful := true
+
+// AddInput / RemoveInput requests: the set of configured priorities changes here.
+//@ event recv dsc.inputAdds (add)
+//@   effect gPset := store(gPset, add.priority, true)
+//@   effect gClosedIn := store(gClosedIn, add.priority, false)
+//@ event recv dsc.inputRmvs (p)
+//@   effect gPset := store(gPset, p, false)
+
+//@ event send dsc.err (e)
+//@   requires [C07 C15] reported-error-is-the-divider-fault: gDivErr ==> e == ErrDividerBad
+//@   requires [C07 C15] only-real-errors-are-sent: e != nil
+//@   requires [C07] error-only-after-a-divider-fault: gDivErr
+
+//@ event close dsc.err
+//@ event close dsc.inputAdds
+//@ event close dsc.inputRmvs
+
+// Stop() and GracefulStop() return when Complete() is called on their breaker.
+//@ event call breaker.(*Breaker).Complete (b)
+//@   requires [C07] graceful-stop-returns-only-when-drained-and-released: gStop || gDivErr || (gInfl == 0 && (forall k :: in(gPset, k) ==> in(gClosedIn, k)))
+//@   effect gCompleted := true
+
+// C15: the calling convention of the divider is an obligation at every call through a
+// Divider value; the divider is untrusted for the divisions checked by safeDivide. For the
+// divisions that are not checked (distribution == nil: updateInputs, addInput, removeInput)
+// the property's own hypothesis - a divider that obeys the sum rule - is assumed.
+//@ functype Divider(priorities, dividend, distribution)
+//@   requires [C15] priorities-sorted-and-distinct: strictlyDesc(priorities)
+//@   requires [C15] priorities-are-configured: allIn(priorities, gPset)
+//@   requires [C15] dividend-at-most-handlers-quantity: dividend <= gH
+//@   modifies content(distribution), gDivErr
+//@   ensures [*] returns-the-map-it-was-given: distribution != nil ==> result == distribution
+//@   ensures [*] or-a-new-one: distribution == nil ==> (result == nil || fresh(result))
+//@   ensures [C07 C15] (distribution != nil) ==> (gDivErr <==> (old(gDivErr) || (msum(distribution) != old(msum(distribution)) && msum(distribution) - old(msum(distribution)) != dividend)))
+//@   ensures [C07 C15] (distribution == nil) ==> (gDivErr == old(gDivErr))
+//@   ensures [* C01 C15] unchecked-divisions-obey-the-sum-rule: distribution == nil ==> (msum(result) == 0 || msum(result) == dividend)
+
+// Well-formedness of the discipline state.
+//@ pred WF(dsc)
+//@   [*] dsc != nil && dsc.actual != nil && dsc.tactic != nil && dsc.inputs != nil
+//@   [*] dsc.actual != dsc.tactic && dsc.actual != dsc.strategic && dsc.tactic != dsc.strategic
+//@   [*] dsc.opts.Divider != nil && dsc.opts.HandlersQuantity == gH && gH >= 1
+//@   [*] strictlyDesc(dsc.priorities) && allIn(dsc.priorities, gPset)
+//@   [*] forall k :: in(gPset, k) <==> dom(dsc.inputs, k)
+//@   [*] (dsc.priorities.arr == 0 ==> len(dsc.priorities) == 0) && (dsc.uncrowded.arr == 0 || dsc.uncrowded.arr != dsc.priorities.arr) && (dsc.useful.arr == 0 || dsc.useful.arr != dsc.priorities.arr)
+//@   [*] allocated(dsc.actual) && allocated(dsc.tactic) && (dsc.strategic == nil || allocated(dsc.strategic))
+//@   [* C01] forall k :: dsc.actual[k] == gInflP[k]
+//@   [* C01] msum(dsc.actual) == gInfl && gInfl <= gH
+//@   [* C01] msum(dsc.strategic) <= gH
+
+// The round invariant: what is in flight plus what is planned never exceeds the capacity.
+//@ pred RINV(dsc)
+//@   [* C01] msum(dsc.actual) + msum(dsc.tactic) <= gH
+
+//@ func calcDistributionQuantity
+//@   requires [*] distribution != nil ==> msum(distribution) < two64
+//@   ensures [* C01 C15] distribution != nil ==> result == msum(distribution)
+//@   loop 0
+//@     invariant [*] quantity == msumR(distribution, $visited)
+
+//@ func safeCalcDistributionQuantity
+//@   ensures [* C01 C15] (distribution != nil && result1 == nil) ==> result0 == msum(distribution)
+//@   ensures [* C01 C15] (distribution != nil && result1 != nil) ==> msum(distribution) >= two64
+//@   ensures [*] result1 != nil ==> result0 == 0
+//@   loop 0
+//@     invariant [*] quantity == msumR(distribution, $visited)
+
+//@ func (*Discipline).increaseActual
+//@   requires [*] dsc != nil && dsc.actual != nil
+//@   requires [*] dsc.actual[priority] < two64 - 1
+//@   modifies content(dsc.actual)
+//@   ensures [* C01] dsc.actual[priority] == old(dsc.actual[priority]) + 1 && msum(dsc.actual) == old(msum(dsc.actual)) + 1
+//@   ensures [* C01] forall k :: k != priority ==> dsc.actual[k] == old(dsc.actual[k])
+
+//@ func (*Discipline).decreaseActual
+//@   requires [*] dsc != nil && dsc.actual != nil
+//@   requires [* C01] dsc.actual[priority] >= 1
+//@   modifies content(dsc.actual)
+//@   ensures [* C01] dsc.actual[priority] == old(dsc.actual[priority]) - 1 && msum(dsc.actual) == old(msum(dsc.actual)) - 1
+//@   ensures [* C01] forall k :: k != priority ==> dsc.actual[k] == old(dsc.actual[k])
+
+//@ func (*Discipline).decreaseTactic
+//@   requires [*] dsc != nil && dsc.tactic != nil
+//@   requires [* C01] dsc.tactic[priority] >= 1
+//@   modifies content(dsc.tactic)
+//@   ensures [* C01] dsc.tactic[priority] == old(dsc.tactic[priority]) - 1 && msum(dsc.tactic) == old(msum(dsc.tactic)) - 1
+//@   ensures [* C01] forall k :: k != priority ==> dsc.tactic[k] == old(dsc.tactic[k])
+
+//@ func (*Discipline).resetTactic
+//@   requires [*] dsc != nil && dsc.tactic != nil
+//@   modifies content(dsc.tactic)
+//@   ensures [* C01 C15] msum(dsc.tactic) == 0 && (forall k :: dsc.tactic[k] == 0)
+//@   loop 0
+//@     invariant [*] forall k :: in($visited, k) ==> dsc.tactic[k] == 0
+
+//@ func (*Discipline).calcTacticByAddUpToStrategic
+//@   requires [*] WF(dsc)
+//@   modifies content(dsc.tactic)
+//@   ensures [* C01] result ==> msum(dsc.tactic) == vacants
+//@   assume-arith add-overflow[2]
+//@   loop 0
+//@     invariant [*] picked == msum(dsc.tactic)
+//@     invariant [*] forall j :: $i <= j && j < len(dsc.priorities) ==> dsc.tactic[dsc.priorities[j]] == 0
+
+//@ func (*Discipline).updateUncrowded
+//@   requires [*] WF(dsc)
+//@   ensures [*] WF(dsc)
+//@   modifies dsc.uncrowded, anyelems(dsc.uncrowded)
+//@   ensures [* C15] strictlyDesc(dsc.uncrowded) && allIn(dsc.uncrowded, gPset)
+//@   ensures [*] dsc.uncrowded.arr == 0 || dsc.uncrowded.arr != dsc.priorities.arr
+//@   loop 0
+//@     invariant [* C15] strictlyDesc(dsc.uncrowded) && allIn(dsc.uncrowded, gPset) && len(dsc.uncrowded) <= $i
+//@     invariant [*] dsc.uncrowded.arr == 0 || (dsc.uncrowded.arr != dsc.priorities.arr && allocated(dsc.uncrowded.arr))
+//@     invariant [* C15] forall j :: ($i <= j && j < len(dsc.priorities) && len(dsc.uncrowded) > 0) ==> dsc.uncrowded[len(dsc.uncrowded) - 1] > dsc.priorities[j]
+
+//@ func (*Discipline).updateUseful
+//@   requires [*] WF(dsc)
+//@   ensures [*] WF(dsc)
+//@   modifies dsc.useful, anyelems(dsc.useful)
+//@   ensures [* C15] strictlyDesc(dsc.useful) && allIn(dsc.useful, gPset)
+//@   ensures [*] dsc.useful.arr == 0 || dsc.useful.arr != dsc.priorities.arr
+//@   loop 0
+//@     invariant [* C15] strictlyDesc(dsc.useful) && allIn(dsc.useful, gPset) && len(dsc.useful) <= $i
+//@     invariant [*] dsc.useful.arr == 0 || (dsc.useful.arr != dsc.priorities.arr && allocated(dsc.useful.arr))
+//@     invariant [* C15] forall j :: ($i <= j && j < len(dsc.priorities) && len(dsc.useful) > 0) ==> dsc.useful[len(dsc.useful) - 1] > dsc.priorities[j]
+
+//@ func (*Discipline).updateUsefulLikeUncrowded
+//@   requires [*] WF(dsc)
+//@   ensures [*] WF(dsc)
+//@   modifies dsc.useful, anyelems(dsc.useful)
+//@   ensures [* C15] strictlyDesc(dsc.useful) && allIn(dsc.useful, gPset)
+//@   ensures [*] dsc.useful.arr == 0 || dsc.useful.arr != dsc.priorities.arr
+//@   loop 0
+//@     invariant [* C15] strictlyDesc(dsc.useful) && allIn(dsc.useful, gPset) && len(dsc.useful) <= $i
+//@     invariant [*] dsc.useful.arr == 0 || (dsc.useful.arr != dsc.priorities.arr && allocated(dsc.useful.arr))
+//@     invariant [* C15] forall j :: ($i <= j && j < len(dsc.priorities) && len(dsc.useful) > 0) ==> dsc.useful[len(dsc.useful) - 1] > dsc.priorities[j]
+
+//@ func (*Discipline).isTacticFilled
+//@   requires [*] dsc != nil && dsc.tactic != nil
+//@   ensures [*] true
+
+//@ func (*Discipline).calcTacticBase
+//@   requires [*] WF(dsc)
+//@   ensures [*] WF(dsc)
+//@   requires [* C15] vacants <= gH
+//@   modifies content(dsc.tactic), dsc.uncrowded, anyelems(dsc.uncrowded), gDivErr
+//@   ensures [* C01] result1 == nil ==> (msum(dsc.tactic) == 0 || msum(dsc.tactic) == vacants)
+//@   ensures [C07 C15] (gDivErr && !old(gDivErr)) ==> result1 == ErrDividerBad
+//@   ensures [C07 C15] old(gDivErr) ==> gDivErr
+//@   ensures [*] dsc.uncrowded.arr == 0 || dsc.uncrowded.arr != dsc.priorities.arr
+//@   ensures [C07 C15] result1 != nil ==> gDivErr
+
+//@ func (*Discipline).calcTactic
+//@   requires [*] WF(dsc)
+//@   ensures [*] WF(dsc)
+//@   modifies content(dsc.tactic), dsc.uncrowded, anyelems(dsc.uncrowded), gDivErr
+//@   ensures [* C01] (result1 == nil && result0) ==> RINV(dsc)
+//@   ensures [C07 C15] (gDivErr && !old(gDivErr)) ==> result1 == ErrDividerBad
+//@   ensures [C07 C15] old(gDivErr) ==> gDivErr
+//@   ensures [*] dsc.uncrowded.arr == 0 || dsc.uncrowded.arr != dsc.priorities.arr
+//@   ensures [C07 C15] result1 != nil ==> gDivErr
+
+//@ func (*Discipline).markInputAsDrained
+//@   requires [*] dsc != nil && dsc.inputs != nil
+//@   modifies content(dsc.inputs)
+//@   ensures [* C07] forall k :: dom(dsc.inputs, k) <==> (old(dom(dsc.inputs, k)) || k == priority)
+//@   ensures [* C07] forall k :: k != priority ==> dsc.inputs[k] == old(dsc.inputs[k])
+//@   ensures [* C07] dsc.inputs[priority].Drained && dsc.inputs[priority].Channel == old(dsc.inputs[priority].Channel)
+
+//@ func (*Discipline).recalcTactic
+//@   requires [*] WF(dsc)
+//@   requires [* C01] RINV(dsc)
+//@   modifies content(dsc.tactic), dsc.useful, anyelems(dsc.useful), gDivErr
+//@   ensures [*] WF(dsc)
+//@   ensures [* C01] result1 == nil ==> RINV(dsc)
+//@   ensures [C07 C15] (gDivErr && !old(gDivErr)) ==> result1 == ErrDividerBad
+//@   ensures [C07 C15] old(gDivErr) ==> gDivErr
+//@   ensures [C07 C15] gDivErr ==> result1 != nil || old(gDivErr)
+//@   ensures [C07 C15] result1 != nil ==> gDivErr
+
+//@ func (*Discipline).isZeroActual
+//@   requires [*] dsc != nil && dsc.actual != nil
+//@   ensures [* C07 C15] result <==> msum(dsc.actual) == 0
+//@   loop 0
+//@     invariant [*] forall k :: in($visited, k) ==> dsc.actual[k] == 0
+
+//@ func (*Discipline).isDrainedInputs
+//@   requires [*] dsc != nil && dsc.inputs != nil
+//@   ensures [* C07] result <==> (forall k :: dom(dsc.inputs, k) ==> dsc.inputs[k].Drained)
+//@   loop 0
+//@     invariant [*] forall k :: in($visited, k) ==> dsc.inputs[k].Drained
+
+//@ pred DRAINED(dsc)
+//@   [C07] forall k :: (dom(dsc.inputs, k) && dsc.inputs[k].Drained) ==> in(gClosedIn, k)
+
+//@ func safeDivide
+//@   requires [*] divider != nil
+//@   requires [C15] strictlyDesc(priorities)
+//@   requires [C15] allIn(priorities, gPset)
+//@   requires [C15] dividend <= gH
+//@   requires [* C15] distribution != nil
+//@   requires [* C01 C15] msum(distribution) == 0
+//@   modifies content(distribution), gDivErr
+//@   ensures [* C01] honest-or-error: result == nil ==> (msum(distribution) == 0 || msum(distribution) == dividend)
+//@   ensures [C07 C15] fault-is-reported: (gDivErr && !old(gDivErr)) ==> result == ErrDividerBad
+//@   ensures [C07 C15] error-only-on-fault: result != nil ==> gDivErr
+//@   ensures [C07 C15] old(gDivErr) ==> gDivErr
+
+//@ func (*Discipline).calcVacants
+//@   requires [*] WF(dsc)
+//@   ensures [* C01] result1 == nil && result0 == gH - msum(dsc.actual)
+
+//@ func (*Discipline).isInputExists
+//@   requires [*] dsc != nil
+//@   ensures [*] result <==> dom(dsc.inputs, priority)
+
+//@ func (*Discipline).clearActual
+//@   requires [*] WF(dsc)
+//@   modifies content(dsc.actual)
+//@   ensures [*] WF(dsc)
+//@   loop 0
+//@     invariant [*] WF(dsc)
+
+//@ func (*Discipline).getOneFeedback
+//@   requires [*] WF(dsc)
+//@   modifies content(dsc.actual), gInfl, gInflP, gClock, gStop
+//@   ensures [*] WF(dsc)
+//@   ensures [* C16] old(gStop) ==> gStop
+
+//@ func (*Discipline).waitCalcTactic
+//@   requires [*] WF(dsc)
+//@   modifies content(dsc.tactic), content(dsc.actual), dsc.uncrowded, anyelems(dsc.uncrowded), gDivErr, gInfl, gInflP, gClock, gStop
+//@   ensures [*] WF(dsc)
+//@   ensures [* C01] result == nil ==> RINV(dsc)
+//@   ensures [C07 C15] (gDivErr && !old(gDivErr)) ==> result == ErrDividerBad
+//@   ensures [C07 C15] old(gDivErr) ==> gDivErr
+//@   ensures [C07 C15] result != nil ==> gDivErr
+//@   ensures [* C16] old(gStop) ==> gStop
+//@   loop 0
+//@     invariant [*] WF(dsc)
+//@     invariant [C07 C15] gDivErr == old(gDivErr)
+//@     invariant [* C16] old(gStop) ==> gStop
+
+//@ func (*Discipline).send
+//@   requires [*] WF(dsc)
+//@   requires [* C01] RINV(dsc)
+//@   requires [* C01] dsc.tactic[priority] >= 1
+//@   requires [C07 C15] !gDivErr
+//@   requires [C16] !gCompleted
+//@   modifies content(dsc.tactic), content(dsc.actual), gInfl, gInflP, gClock, gStop
+//@   ensures [*] WF(dsc)
+//@   ensures [* C01] RINV(dsc)
+//@   ensures [* C01] (result == 0 || result == 1) && msum(dsc.actual) == old(msum(dsc.actual)) + result && msum(dsc.tactic) == old(msum(dsc.tactic)) - result
+//@   ensures [* C01] dsc.tactic[priority] == old(dsc.tactic[priority]) - result && (forall k :: k != priority ==> dsc.tactic[k] == old(dsc.tactic[k]))
+//@   ensures [* C16] old(gStop) ==> gStop
+//@   ensures [* C16] result == 0 ==> gStop
+
+//@ func (*Discipline).io
+//@   requires [*] WF(dsc)
+//@   requires [*] in(gPset, priority)
+//@   requires [* C01] RINV(dsc)
+//@   requires [C07 C15] !gDivErr
+//@   requires [C16] !gCompleted
+//@   requires [C07] DRAINED(dsc)
+//@   modifies content(dsc.tactic), content(dsc.actual), content(dsc.inputs), gInfl, gInflP, gClock, gClosedIn, gStop
+//@   ensures [*] WF(dsc)
+//@   ensures [* C01] RINV(dsc)
+//@   ensures [* C01] result == msum(dsc.actual) - old(msum(dsc.actual))
+//@   ensures [C07] DRAINED(dsc)
+//@   ensures [* C16] old(gStop) ==> gStop
+//@   loop 0
+//@     invariant [*] WF(dsc)
+//@     invariant [* C01] RINV(dsc)
+//@     invariant [* C01] processed == msum(dsc.actual) - old(msum(dsc.actual))
+//@     invariant [C07] DRAINED(dsc)
+//@     invariant [* C16] old(gStop) ==> gStop
+
+//@ func (*Discipline).iou
+//@   requires [*] WF(dsc)
+//@   requires [*] in(gPset, priority)
+//@   requires [* C01] RINV(dsc)
+//@   requires [C07 C15] !gDivErr
+//@   requires [C16] !gCompleted
+//@   requires [C07] DRAINED(dsc)
+//@   modifies content(dsc.tactic), content(dsc.actual), content(dsc.inputs), gInfl, gInflP, gClock, gClosedIn, gStop
+//@   ensures [*] WF(dsc)
+//@   ensures [* C01] RINV(dsc)
+//@   ensures [* C01] result == msum(dsc.actual) - old(msum(dsc.actual))
+//@   ensures [C07] DRAINED(dsc)
+//@   ensures [* C16] old(gStop) ==> gStop
+//@   loop 0
+//@     invariant [*] WF(dsc)
+//@     invariant [* C01] RINV(dsc)
+//@     invariant [* C01] processed == msum(dsc.actual) - old(msum(dsc.actual))
+//@     invariant [C07] DRAINED(dsc)
+//@     invariant [* C16] old(gStop) ==> gStop
+
+//@ func (*Discipline).prioritize
+//@   requires [*] WF(dsc)
+//@   requires [* C01] RINV(dsc)
+//@   requires [C07 C15] !gDivErr
+//@   requires [C16] !gCompleted
+//@   requires [C07] DRAINED(dsc)
+//@   modifies content(dsc.tactic), content(dsc.actual), content(dsc.inputs), gInfl, gInflP, gClock, gClosedIn, gStop
+//@   ensures [*] WF(dsc)
+//@   ensures [* C01] RINV(dsc)
+//@   ensures [* C01] result == msum(dsc.actual) - old(msum(dsc.actual))
+//@   ensures [C07] DRAINED(dsc)
+//@   ensures [* C16] old(gStop) ==> gStop
+//@   loop 0
+//@     invariant [*] WF(dsc)
+//@     invariant [* C01] RINV(dsc)
+//@     invariant [* C01] processed == msum(dsc.actual) - old(msum(dsc.actual))
+//@     invariant [C07] DRAINED(dsc)
+//@     invariant [* C16] old(gStop) ==> gStop
+
+//@ func (*Discipline).getLimitedFeedback
+//@   requires [*] WF(dsc)
+//@   modifies content(dsc.actual), gInfl, gInflP, gClock, gStop
+//@   ensures [*] WF(dsc)
+//@   ensures [* C16] old(gStop) ==> gStop
+//@   loop 0
+//@     invariant [*] WF(dsc)
+//@     invariant [* C16] old(gStop) ==> gStop
+
+//@ func (*Discipline).waitZeroActual
+//@   requires [*] WF(dsc)
+//@   modifies content(dsc.actual), gInfl, gInflP, gClock, gStop
+//@   ensures [*] WF(dsc)
+//@   ensures [* C07 C15] gStop || gInfl == 0
+//@   ensures [* C16] old(gStop) ==> gStop
+//@   loop 0
+//@     invariant [*] WF(dsc)
+//@     invariant [* C16] old(gStop) ==> gStop
+
+//@ func (*Discipline).base
+//@   requires [*] WF(dsc)
+//@   requires [C07 C15] !gDivErr
+//@   requires [C16] !gCompleted
+//@   requires [C07] DRAINED(dsc)
+//@   modifies content(dsc.tactic), content(dsc.actual), content(dsc.inputs), dsc.uncrowded, anyelems(dsc.uncrowded), dsc.useful, gDivErr, gInfl, gInflP, gClock, gClosedIn, gStop
+//@   ensures [*] WF(dsc)
+//@   ensures [C07 C15] gDivErr ==> result1 == ErrDividerBad
+//@   ensures [C07 C15] result1 == nil ==> !gDivErr
+//@   ensures [C07 C15] result1 != nil ==> gDivErr
+//@   ensures [C07] DRAINED(dsc)
+//@   ensures [* C16] old(gStop) ==> gStop
+
+// ---------------------------------------------------------------- C17: inputs added and removed
+
+//@ func removePriority
+//@   requires [*] strictlyDesc(priorities)
+//@   modifies elems(priorities)
+//@   ensures [* C17] result.arr == priorities.arr && result.off == priorities.off && len(result) <= len(priorities) && cap(result) == cap(priorities)
+//@   ensures [* C17 C15] strictlyDesc(result)
+//@   ensures [* C17] removed-is-gone: forall a :: 0 <= a && a < len(result) ==> result[a] != removed
+//@   ensures [* C17 C15] only-old-elements: forall a :: 0 <= a && a < len(result) ==> (exists b :: 0 <= b && b < len(priorities) && result[a] == oldat(priorities, b))
+//@   loop 0
+//@     invariant [*] 0 <= kept && kept <= $i
+//@     invariant [* C17] forall a :: 0 <= a && a < kept ==> priorities[a] != removed
+//@     invariant [* C17] forall a :: 0 <= a && a < kept ==> (exists b :: 0 <= b && b < $i && priorities[a] == oldat(priorities, b))
+//@     invariant [* C17] forall a, b :: 0 <= a && a < b && b < kept ==> priorities[a] > priorities[b]
+//@     invariant [* C17] forall a, j :: 0 <= a && a < kept && $i <= j && j < len(priorities) ==> priorities[a] > oldat(priorities, j)
+//@     invariant [* C17] forall j :: $i <= j && j < len(priorities) ==> priorities[j] == oldat(priorities, j)
+
+// Everything of WF except the relation between the priority list, the inputs table and the
+// configured set (which is re-established by addInput / removeInput / updateInputs).
+//@ pred WFS(dsc)
+//@   [*] dsc != nil && dsc.actual != nil && dsc.tactic != nil && dsc.inputs != nil
+//@   [*] dsc.actual != dsc.tactic && dsc.actual != dsc.strategic && dsc.tactic != dsc.strategic
+//@   [*] dsc.opts.Divider != nil && dsc.opts.HandlersQuantity == gH && gH >= 1
+//@   [*] (dsc.priorities.arr == 0 ==> len(dsc.priorities) == 0) && (dsc.uncrowded.arr == 0 || dsc.uncrowded.arr != dsc.priorities.arr) && (dsc.useful.arr == 0 || dsc.useful.arr != dsc.priorities.arr)
+//@   [*] allocated(dsc.actual) && allocated(dsc.tactic) && (dsc.strategic == nil || allocated(dsc.strategic))
+//@   [* C01] forall k :: dsc.actual[k] == gInflP[k]
+//@   [* C01] msum(dsc.actual) == gInfl && gInfl <= gH
+
+// The priority list holds distinct keys of the inputs table (not necessarily sorted).
+//@ pred PLIST(dsc)
+//@   [*] forall a, b :: 0 <= a && a < b && b < len(dsc.priorities) ==> dsc.priorities[a] != dsc.priorities[b]
+//@   [*] forall a :: 0 <= a && a < len(dsc.priorities) ==> dom(dsc.inputs, dsc.priorities[a])
+
+//@ func (*Discipline).addPriority
+//@   requires [*] WFS(dsc)
+//@   requires [*] PLIST(dsc)
+//@   modifies content(dsc.inputs), dsc.priorities, anyelems(dsc.priorities)
+//@   ensures [*] WFS(dsc)
+//@   ensures [*] PLIST(dsc)
+//@   ensures [* C17] forall k :: dom(dsc.inputs, k) <==> (old(dom(dsc.inputs, k)) || k == priority)
+//@   ensures [* C17] forall k :: k != priority ==> dsc.inputs[k] == old(dsc.inputs[k])
+//@   ensures [* C17 C07] registered-channel: dsc.inputs[priority].Channel == channel && !dsc.inputs[priority].Drained
+//@   assume-arith append-len[0]
+
+//@ func (*Discipline).updateInputs
+//@   requires [*] WFS(dsc)
+//@   requires [*] PLIST(dsc)
+//@   requires [*] len(dsc.priorities) == 0 && (forall k :: !dom(dsc.inputs, k)) && gPset == domset(inputs)
+//@   requires [C07 C15] !gDivErr
+//@   modifies content(dsc.inputs), dsc.priorities, anyelems(dsc.priorities), dsc.strategic, gPerm, gInv, gDivErr
+//@   ensures [*] WF(dsc)
+//@   ensures [* C07] forall k :: dom(dsc.inputs, k) ==> !dsc.inputs[k].Drained
+//@   ensures [C07 C15] !gDivErr
+//@   loop 0
+//@     invariant [*] WFS(dsc)
+//@     invariant [*] PLIST(dsc)
+//@     invariant [*] forall k :: dom(dsc.inputs, k) <==> in($visited, k)
+//@     invariant [* C07] forall k :: dom(dsc.inputs, k) ==> !dsc.inputs[k].Drained
+
+// addInput runs right after an AddInput request was received (gPset already contains priority).
+//@ func (*Discipline).addInput
+//@   requires [*] WFS(dsc)
+//@   requires [*] strictlyDesc(dsc.priorities)
+//@   requires [*] PLIST(dsc)
+//@   requires [*] forall k :: in(gPset, k) <==> (dom(dsc.inputs, k) || k == priority)
+//@   requires [C07] forall k :: (k != priority && dom(dsc.inputs, k) && dsc.inputs[k].Drained) ==> in(gClosedIn, k)
+//@   requires [C07] !in(gClosedIn, priority)
+//@   modifies content(dsc.inputs), dsc.priorities, anyelems(dsc.priorities), dsc.strategic, gPerm, gInv, gDivErr
+//@   ensures [*] WF(dsc)
+//@   ensures [C17] added-channel-is-registered-under-priority: dsc.inputs[priority].Channel == channel && !dsc.inputs[priority].Drained && in(gPset, priority)
+//@   ensures [C17 C01] in-flight-accounting-untouched: forall k :: dsc.actual[k] == old(dsc.actual[k])
+//@   ensures [C17] other-inputs-untouched: forall k :: k != priority ==> dsc.inputs[k] == old(dsc.inputs[k])
+//@   ensures [C07] DRAINED(dsc)
+//@   ensures [C07 C15] gDivErr == old(gDivErr)
+
+// removeInput runs right after a RemoveInput request was received (gPset no longer contains priority).
+//@ func (*Discipline).removeInput
+//@   requires [*] WFS(dsc)
+//@   requires [*] strictlyDesc(dsc.priorities)
+//@   requires [*] PLIST(dsc)
+//@   requires [*] forall k :: in(gPset, k) <==> (dom(dsc.inputs, k) && k != priority)
+//@   requires [C07] DRAINED(dsc)
+//@   modifies content(dsc.inputs), content(dsc.tactic), dsc.priorities, anyelems(dsc.priorities), dsc.strategic, gDivErr
+//@   ensures [*] WF(dsc)
+//@   ensures [C17] removed-input-is-never-read-again: !dom(dsc.inputs, priority) && !in(gPset, priority)
+//@   ensures [C17 C01] in-flight-accounting-untouched: forall k :: dsc.actual[k] == old(dsc.actual[k])
+//@   ensures [C17] other-inputs-untouched: forall k :: k != priority ==> dsc.inputs[k] == old(dsc.inputs[k])
+//@   ensures [C07] DRAINED(dsc)
+//@   ensures [C07 C15] gDivErr == old(gDivErr)
+
+//@ func (*Discipline).loop
+//@   requires [*] WF(dsc)
+//@   requires [C07 C15] !gDivErr
+//@   requires [C16] !gCompleted
+//@   requires [C07] DRAINED(dsc)
+//@   modifies content(dsc.tactic), content(dsc.actual), content(dsc.inputs), dsc.priorities, anyelems(dsc.priorities), dsc.strategic, dsc.uncrowded, dsc.useful, gPerm, gInv, gDivErr, gInfl, gInflP, gClock, gClosedIn, gStop, gGraceful, gPset
+//@   ensures [*] WF(dsc)
+//@   ensures [* C07 C15] gStop || gInfl == 0
+//@   ensures [C07 C15] gDivErr ==> result == ErrDividerBad
+//@   ensures [C07] result == nil ==> (gStop || (forall k :: in(gPset, k) ==> in(gClosedIn, k)))
+//@   ensures [C07 C15] result == nil ==> !gDivErr
+//@   ensures [C07 C15] result != nil ==> gDivErr
+//@   ensures [C16] !gCompleted
+//@   loop 0
+//@     invariant [*] WF(dsc)
+//@     invariant [C07 C15] !gDivErr
+//@     invariant [C07] DRAINED(dsc)
+
+//@ func (*Discipline).main
+//@   requires [*] WF(dsc)
+//@   requires [C07 C15] !gDivErr
+//@   requires [C16] !gCompleted
+//@   requires [C07] DRAINED(dsc)
+//@   modifies content(dsc.tactic), content(dsc.actual), content(dsc.inputs), dsc.priorities, anyelems(dsc.priorities), dsc.strategic, dsc.uncrowded, dsc.useful, gPerm, gInv, gDivErr, gInfl, gInflP, gClock, gClosedIn, gStop, gGraceful, gPset, gCompleted
+
+//@ func Opts.isValid
+//@   ensures [*] (result == nil) <==> (opts.Divider != nil && opts.HandlersQuantity != 0 && opts.Feedback != nil && opts.Output != nil)
+
+//@ func Opts.normalize
+//@   ensures [*] result.Divider == opts.Divider && result.Feedback == opts.Feedback && result.HandlersQuantity == opts.HandlersQuantity && result.Inputs == opts.Inputs && result.Output == opts.Output
+//@   ensures [*] result.Ctx != nil
+
+// The ghost state of a discipline that does not exist yet is empty.
+//@ func New
+//@   requires [*] ghost-initial-state: gInfl == 0 && (forall k :: gInflP[k] == 0) && !gDivErr && !gStop && !gGraceful && !gCompleted && (forall k :: !in(gClosedIn, k)) && gPset == domset(opts.Inputs) && gH == opts.HandlersQuantity
+//@   modifies gDivErr, gPerm, gInv, anyelems(uint)
+//@   ensures [*] result1 == nil ==> result0 != nil
